@@ -89,10 +89,48 @@ def _library_exception(shard):
     return None
 
 
+def _run_chain(shard):
+    """("__chain__", (s1, s2, ...)): several shards one after the other inside ONE process - the same oracles,
+    but from non-initial process states (whatever the library remembers at class / module level from the
+    earlier shards).  A violation that only shows in a chain carries the whole chain as its replay case."""
+    agg = new_result()
+    for sub in shard[1]:
+        r = _CHECK.run_shard(sub)
+        for k in ("evaluations", "states", "transitions", "traces", "distinct_count"):
+            agg[k] += r[k]
+        agg["distinct"] |= r["distinct"]
+        for v in r["violations"]:
+            v["case"] = {"__shard__": jsonable(shard), "__inner__": jsonable(v["case"])}
+            if len(agg["violations"]) < MAX_VIOL_PER_SHARD or not any(x["key"] == v["key"] for x in agg["violations"]):
+                agg["violations"].append(v)
+        for k, n in r["observations"].items():
+            agg["observations"][k] = agg["observations"].get(k, 0) + n
+        agg["caps"].extend(r["caps"])
+    observe(agg, "shards_rerun_in_chains", len(shard[1]))
+    sample(agg, {"chain_of_shards_in_one_process": len(shard[1])})
+    return agg
+
+
+def chains_of(chk, tier):
+    """Chains for checks that declare CHAIN_STRIDE = {tier: k}: every k-th shard forwards, the same backwards,
+    and the interleaved selection rotated by half."""
+    stride = (getattr(chk, "CHAIN_STRIDE", None) or {}).get(tier)
+    if not stride:
+        return []
+    base = list(chk.shards(tier))
+    sel = base[::stride]
+    out = [("__chain__", tuple(sel)), ("__chain__", tuple(reversed(sel)))]
+    sel2 = base[stride // 2::stride] if stride > 1 else []
+    if len(sel2) > 1:
+        h = len(sel2) // 2
+        out.append(("__chain__", tuple(sel2[h:] + sel2[:h])))
+    return out
+
+
 def _worker_run(shard):
     t0 = time.time()
     try:
-        r = _CHECK.run_shard(shard)
+        r = _run_chain(shard) if shard and shard[0] == "__chain__" else _CHECK.run_shard(shard)
     except BaseException:
         r = _library_exception(shard)
         if r is None:
@@ -134,8 +172,9 @@ def run_check(cid, tier, jobs=None):
     logging.disable(logging.CRITICAL)
     repo.setup()
     chk = load_check(cid)
-    shards = list(chk.shards(tier))
+    shards = list(chk.shards(tier)) + chains_of(chk, tier)
     random.Random(seed).shuffle(shards)
+    shards.sort(key=lambda x: 0 if x and x[0] == "__chain__" else 1)      # the long tasks first
     jobs = jobs or int(os.environ.get("VERIF_JOBS", "0") or 0) or min(16, os.cpu_count() or 1)
     jobs = max(1, min(jobs, len(shards)))
     agg = new_result()
